@@ -14,6 +14,11 @@
                          character-data tokens come in source order
     C17_boundaries       every end point is a char boundary of the source, when the token spans are
                          slices of the source
+    C17_error_step_reserved   the two reserved-name errors: `InvalidTarget` is raised by the PI arm with the
+                         span of the PI's target, `InvalidNamespaceDeclaration` by a namespace-declaration
+                         attribute with the span of its NAME (like `DuplicateAttribute`); both are errors of
+                         one token of the list (C17_error_reserved_origin), so C17_errors / C17_ordered /
+                         C17_boundaries cover them like every other `ParseErr` (`ParseErr.span`)
   For the reference tokenizer (Model/Lex*.lean: xmlparser 0.13.6 as written; tied to the crate by the
   `lex` suite), on EVERY string:
     C17_lex_slices / _sliceOf   every token span is the slice of the text at its byte offsets
@@ -31,11 +36,24 @@
                          value text, which decodes (`parse_attribute`, ID-normalised for the name id of
                          xml:id) to the attribute node's value
                          (the value span lies between two equal quote characters of the source)
-    C17_slice_comment, C17_slice_pi   body / target / content
+    C17_slice_comment    `Comment` slices to the body AS WRITTEN; the node's value is `normalizeLineEnds` of
+                         that slice (CR LF → LF, then CR → LF: `<!--x\r\ny-->` has the value `x\ny` and a
+                         span of 4 bytes)
+    C17_slice_pi         `PiTarget` slices to the target = the local name of the node's name (never `xml`
+                         in any letter case); `PiContent` slices to the data AS WRITTEN, and the node's data
+                         is `normalizeLineEnds` of that slice
+    C17_slice_comment_noCr / C17_slice_pi_noCr   when the slice (in particular: the text,
+                         `…_noCr_source`) contains no CR, the slice IS the value / the data
     C17_slice_text       `Text` slices to the source of the run of text / CDATA tokens behind the node,
                          from inside the first part to inside the last (`runSlice`), and decoding that
                          slice (`decodeRun`) gives the node's value
     C17_span_of_every_node   all of it, for every path at once
+  ERRORS ON STRINGS (Lemmas/SpanDescErr.lean): for every string rejected with
+    C17_error_invalidTarget   `InvalidTarget(target, span)`: `span` is the target span of a PI token of the text,
+                         slices the text to `target`, and `target` is `xml` in some letter case
+    C17_error_invalidNamespaceDeclaration   `InvalidNamespaceDeclaration(name, span)`: `span` is the name span of
+                         an attribute token `xmlns:p` / `xmlns`, slices the text to that name as written; the
+                         attribute's decoded value is reserved for the prefix (`reservedDecl`)
 -/
 import XotModel.Lemmas.ParseSpans
 import XotModel.Lemmas.ParseSpanKeys
@@ -49,6 +67,8 @@ import XotModel.Lemmas.LexSliceOrder
 import XotModel.Lemmas.LexCanon
 import XotModel.Model.ParseString
 import XotModel.Lemmas.SpanSliceNode
+import XotModel.Lemmas.SpanDescErr
+import XotModel.Lemmas.SpanDescWitness
 
 namespace XotModel.Props
 open XotModel XotModel.Witness
@@ -77,6 +97,55 @@ theorem C17_errors_content (attr : Bool) (base : Nat) (s : Str) (e : ContentErr)
 example : (build .document mismatchLen Env.fresh mismatch none).errSpan = some ⟨5, 6⟩ := by
   rw [build_eq_buildE]; decide +kernel
 example : TokenShape mismatchLen mismatch none := tokenShape_of_B (by decide +kernel)
+
+/-- The two reserved-name errors (`e.isReservedKind`: `InvalidTarget`, `InvalidNamespaceDeclaration`) and
+    the token that raises them.  `InvalidTarget` comes from the PI arm of `_parse` and carries the PI's
+    target and the TARGET span; `InvalidNamespaceDeclaration` comes from an attribute that is a namespace
+    declaration (`IsNsDecl`: `xmlns:p` declares `p`, `xmlns` the empty prefix) whose DECODED value is
+    reserved for that prefix, and carries the span of the attribute NAME as written
+    (`Span::from_prefix_name`, the span `DuplicateAttribute` uses). No other arm raises either. -/
+theorem C17_error_step_reserved {b : Builder} {t : Token} {e : ParseErr} {env' : Env}
+    (h : b.step t = .err e env') (hk : e.isReservedKind = true) :
+    (∃ tg c w, t = .pi tg c w ∧ e = .invalidTarget tg.text tg.span ∧ isReservedPiTarget tg.text = true) ∨
+    (∃ p l v w pfx, t = .attribute p l v w ∧ IsNsDecl p.text l.text pfx ∧
+      e = .invalidNamespaceDeclaration (declDisplayName pfx) (Span.fromPrefixName p l) ∧
+      ∃ u, parseContentGo true v.start 0 v.text = .ok u ∧ reservedDecl pfx u = true) :=
+  step_err_reserved h hk
+
+/-- … and conversely both are raised whenever their condition holds, whatever the builder state. -/
+theorem C17_error_step_invalidTarget (b : Builder) (tg : StrSpan) (c : Option StrSpan) (w : StrSpan)
+    (h : isReservedPiTarget tg.text = true) :
+    b.step (.pi tg c w) = .err (.invalidTarget tg.text tg.span) b.env := by
+  simp only [Builder.step, h, if_true]
+
+theorem C17_error_prefix_reserved (b : Builder) (pfx : Str) (uri : StrSpan) (nameSpan : Span) (u : Str)
+    (hu : parseContentGo true uri.start 0 uri.text = .ok u) (h : reservedDecl pfx u = true) :
+    b.prefix pfx uri nameSpan = .err (.invalidNamespaceDeclaration (declDisplayName pfx) nameSpan) b.env := by
+  unfold Builder.prefix
+  rw [hu]
+  simp only [h, if_true]
+
+/-- A reserved-name error of `parse` / `parse_fragment` is the error of one arm on one of the tokens
+    (neither the end of the loop nor the epilogues raise one). -/
+theorem C17_error_reserved_origin {m : Mode} {len : Nat} {env env' : Env} {ts : List Token} {lexErr : Option Nat}
+    {e : ParseErr} (h : build m len env ts lexErr = .err e env') (hk : e.isReservedKind = true) :
+    ∃ t ∈ ts, ∃ b1 : Builder, b1.step t = .err e env' :=
+  build_err_reserved h hk
+
+/-- Non-vacuity: `<?XmL d?><a/>` is rejected with `InvalidTarget("XmL", 2..5)`, the span of the target;
+    `<a xmlns:p=""/>` with `InvalidNamespaceDeclaration("xmlns:p", 3..10)`, the span of the attribute name
+    (the value `""` lies at 12..12). -/
+example : (build .document 13 Env.fresh xmlPiDoc none).err? = some (.invalidTarget ['X', 'm', 'L'] ⟨2, 5⟩) := by
+  rw [build_eq_buildE]; decide +kernel
+example : (build .document 15 Env.fresh undeclDoc none).err? =
+    some (.invalidNamespaceDeclaration ['x', 'm', 'l', 'n', 's', ':', 'p'] ⟨3, 10⟩) := by
+  rw [build_eq_buildE]; decide +kernel
+example : (ParseErr.invalidTarget ['X', 'm', 'L'] ⟨2, 5⟩).isReservedKind = true ∧
+    (ParseErr.invalidNamespaceDeclaration ['x', 'm', 'l', 'n', 's', ':', 'p'] ⟨3, 10⟩).isReservedKind = true ∧
+    isReservedPiTarget ['X', 'm', 'L'] = true ∧ reservedDecl ['p'] [] = true ∧
+    IsNsDecl ['x', 'm', 'l', 'n', 's'] ['p'] ['p'] := ⟨rfl, rfl, by decide, by decide, .inl ⟨rfl, rfl⟩⟩
+example : TokenShape 13 xmlPiDoc none ∧ TokenShape 15 undeclDoc none :=
+  ⟨tokenShape_of_B (by decide +kernel), tokenShape_of_B (by decide +kernel)⟩
 
 /-- C17_ordered: every recorded span and every error span satisfies `start ≤ end`, when prefix
     and local-name spans abut the colon (token-shape contract) and the character-data tokens
@@ -264,11 +333,6 @@ theorem C17_lex_canonical_positions (ts : List Token) :
 
 /-- Non-vacuity of `LexOK`: the tokens of `<p:a b="1">x<!--c--></p:a>`, and the positions the
     theorem gives for them. -/
-def lexWitness : List Token :=
-  [.elementStart ⟨['p'], 0⟩ ⟨['a'], 0⟩ ⟨[], 0⟩, .attribute ⟨[], 0⟩ ⟨['b'], 0⟩ ⟨['1'], 0⟩ ⟨[], 0⟩,
-   .elementEnd .open ⟨[], 0⟩, .text ⟨['x'], 0⟩, .comment ⟨['c'], 0⟩ ⟨[], 0⟩,
-   .elementEnd (.close ⟨['p'], 0⟩ ⟨['a'], 0⟩) ⟨[], 0⟩]
-
 example : LexOK false lexWitness = true ∧ LexOK true lexWitness = true := by decide
 example : renderTokens lexWitness =
     ['<', 'p', ':', 'a', ' ', 'b', '=', '"', '1', '"', '>', 'x', '<', '!', '-', '-', 'c', '-', '-', '>',
@@ -329,20 +393,62 @@ theorem C17_slice_attribute {m : Mode} {env : Env} {s : Str} {p : Parsed} (h : p
         else lookupPrefix (scopeAt p.tree baseStack q) (p.env.prefixes.idxOf pfx.text) = some ns :=
   (parseString_sliced h hat).2 k hk n v hv
 
-/-- C17_slice_comment: the `Comment` span slices to the comment's text. -/
+/-- C17_slice_comment: the `Comment` span slices to the comment's body AS WRITTEN (`w`); the node's
+    value is its line-end normalisation (`content.replace("\r\n", "\n").replace('\r', "\n")`). -/
 theorem C17_slice_comment {m : Mode} {env : Env} {s : Str} {p : Parsed} (h : parseString m env s = .ok p)
     {q : Path} {v : Str} {ks : List Tree} (hat : p.tree.at? q = some (.node (.comment v) ks)) :
-    ∃ sp, p.spans.get ⟨q, .comment⟩ = some sp ∧ sliceBytes s sp.start sp.stop = some v :=
+    ∃ w, (∃ sp, p.spans.get ⟨q, .comment⟩ = some sp ∧ sliceBytes s sp.start sp.stop = some w) ∧
+      v = normalizeLineEnds w :=
   parseString_sliced h hat
 
+/-- … full strength when the written body has no CR: the slice IS the value. -/
+theorem C17_slice_comment_noCr {m : Mode} {env : Env} {s : Str} {p : Parsed} (h : parseString m env s = .ok p)
+    {q : Path} {v : Str} {ks : List Tree} (hat : p.tree.at? q = some (.node (.comment v) ks)) :
+    ∃ sp w, p.spans.get ⟨q, .comment⟩ = some sp ∧ sliceBytes s sp.start sp.stop = some w ∧
+      ('\r' ∉ w → sliceBytes s sp.start sp.stop = some v) := by
+  obtain ⟨w, ⟨sp, hg, hs⟩, rfl⟩ := C17_slice_comment h hat
+  exact ⟨sp, w, hg, hs, fun hcr => by rw [normalizeLineEnds_noCr w hcr]; exact hs⟩
+
+/-- … in particular for a text without any CR. -/
+theorem C17_slice_comment_noCr_source {m : Mode} {env : Env} {s : Str} {p : Parsed}
+    (h : parseString m env s = .ok p) (hcr : '\r' ∉ s)
+    {q : Path} {v : Str} {ks : List Tree} (hat : p.tree.at? q = some (.node (.comment v) ks)) :
+    ∃ sp, p.spans.get ⟨q, .comment⟩ = some sp ∧ sliceBytes s sp.start sp.stop = some v := by
+  obtain ⟨w, hw, rfl⟩ := C17_slice_comment h hat
+  exact SlicesTo.normalized_of_noCr hcr hw
+
 /-- C17_slice_pi: `PiTarget` slices to the target = the local name of the node's name (a name in no
-    namespace), `PiContent` to the node's data when it has any. -/
+    namespace; not `xml` in any letter case — that is `InvalidTarget`); `PiContent` slices to the data AS
+    WRITTEN (`w`) when the node has data, and the data is the line-end normalisation of `w`. -/
 theorem C17_slice_pi {m : Mode} {env : Env} {s : Str} {p : Parsed} (h : parseString m env s = .ok p)
     {q : Path} {id : Nat} {d : Option Str} {ks : List Tree} (hat : p.tree.at? q = some (.node (.pi id d) ks)) :
     ∃ target, (∃ sp, p.spans.get ⟨q, .piTarget⟩ = some sp ∧ sliceBytes s sp.start sp.stop = some target) ∧
+      isReservedPiTarget target = false ∧
       p.env.names[id]? = some (target, Env.noNamespace) ∧
-      ∀ c, d = some c → ∃ sp, p.spans.get ⟨q, .piContent⟩ = some sp ∧ sliceBytes s sp.start sp.stop = some c :=
+      ∀ c, d = some c → ∃ w, (∃ sp, p.spans.get ⟨q, .piContent⟩ = some sp ∧
+        sliceBytes s sp.start sp.stop = some w) ∧ c = normalizeLineEnds w :=
   parseString_sliced h hat
+
+/-- … full strength when the written data has no CR: the slice IS the data. -/
+theorem C17_slice_pi_noCr {m : Mode} {env : Env} {s : Str} {p : Parsed} (h : parseString m env s = .ok p)
+    {q : Path} {id : Nat} {c : Str} {ks : List Tree} (hat : p.tree.at? q = some (.node (.pi id (some c)) ks)) :
+    ∃ sp w, p.spans.get ⟨q, .piContent⟩ = some sp ∧ sliceBytes s sp.start sp.stop = some w ∧
+      ('\r' ∉ w → sliceBytes s sp.start sp.stop = some c) := by
+  obtain ⟨_, _, _, _, hc⟩ := C17_slice_pi h hat
+  obtain ⟨w, ⟨sp, hg, hs⟩, rfl⟩ := hc c rfl
+  exact ⟨sp, w, hg, hs, fun hcr => by rw [normalizeLineEnds_noCr w hcr]; exact hs⟩
+
+/-- … in particular for a text without any CR: the statement without normalisation. -/
+theorem C17_slice_pi_noCr_source {m : Mode} {env : Env} {s : Str} {p : Parsed}
+    (h : parseString m env s = .ok p) (hcr : '\r' ∉ s)
+    {q : Path} {id : Nat} {d : Option Str} {ks : List Tree} (hat : p.tree.at? q = some (.node (.pi id d) ks)) :
+    ∃ target, (∃ sp, p.spans.get ⟨q, .piTarget⟩ = some sp ∧ sliceBytes s sp.start sp.stop = some target) ∧
+      p.env.names[id]? = some (target, Env.noNamespace) ∧
+      ∀ c, d = some c → ∃ sp, p.spans.get ⟨q, .piContent⟩ = some sp ∧ sliceBytes s sp.start sp.stop = some c := by
+  obtain ⟨target, ht, _, hn, hc⟩ := C17_slice_pi h hat
+  refine ⟨target, ht, hn, fun c hd => ?_⟩
+  obtain ⟨w, hw, rfl⟩ := hc c hd
+  exact SlicesTo.normalized_of_noCr hcr hw
 
 /-- C17_slice_text.  Behind the text node at `q` is a run of CONSECUTIVE tokens of the text, all of
     them text or CDATA tokens (`run`; adjacent in the source, empty CDATA sections included).  The
@@ -377,32 +483,58 @@ theorem C17_span_of_every_node {m : Mode} {env : Env} {s : Str} {p : Parsed} (h 
       NodeSliced s (lexMode m s).1 p.spans.get p.env (scopeAt p.tree baseStack q) q v ks :=
   ⟨C17_total h, fun _ _ _ hat => parseString_sliced h hat⟩
 
+/-! ### The reserved-name errors on strings -/
+
+/-- C17_error_invalidTarget.  A text rejected with `InvalidTarget(target, span)` has a PI token whose target
+    is `target`, `xml` in some letter case (`eq_ignore_ascii_case`); `span` is the span of that target and
+    slices the text to `target`. -/
+theorem C17_error_invalidTarget {m : Mode} {env env' : Env} {s : Str} {target : Str} {sp : Span}
+    (h : parseString m env s = .err (.invalidTarget target sp) env') :
+    ∃ tg c w, Token.pi tg c w ∈ (lexMode m s).1 ∧ target = tg.text ∧ sp = tg.span ∧
+      isReservedPiTarget target = true ∧ sliceBytes s sp.start sp.stop = some target :=
+  parseString_invalidTarget h
+
+/-- C17_error_invalidNamespaceDeclaration.  A text rejected with `InvalidNamespaceDeclaration(name, span)`
+    has an attribute token that is a namespace declaration of the prefix `pfx` (`xmlns:pfx`, or `xmlns` for
+    the empty one); `span` is the span of the attribute's NAME and slices the text to it as written;
+    `name` is `xmlns:pfx` / `xmlns`; the value decodes (`parse_attribute`) to something reserved for `pfx`. -/
+theorem C17_error_invalidNamespaceDeclaration {m : Mode} {env env' : Env} {s : Str} {name : Str} {sp : Span}
+    (h : parseString m env s = .err (.invalidNamespaceDeclaration name sp) env') :
+    ∃ p l v w pfx, Token.attribute p l v w ∈ (lexMode m s).1 ∧ IsNsDecl p.text l.text pfx ∧
+      name = declDisplayName pfx ∧ sp = Span.fromPrefixName p l ∧
+      sliceBytes s sp.start sp.stop = some (tokQName p.text l.text) ∧
+      ∃ u, parseAttribute v.text = .ok u ∧ reservedDecl pfx u = true :=
+  parseString_invalidNamespaceDeclaration h
+
+/-- Non-vacuity on the strings `<?XmL d?><a/>` and `<a xmlns:p=""/>` (tokenizer + builder). -/
+example : (parseString .document Env.fresh ['<', '?', 'X', 'm', 'L', ' ', 'd', '?', '>', '<', 'a', '/', '>']).err? =
+      some (.invalidTarget ['X', 'm', 'L'] ⟨2, 5⟩) ∧
+    sliceBytes ['<', '?', 'X', 'm', 'L', ' ', 'd', '?', '>', '<', 'a', '/', '>'] 2 5 = some ['X', 'm', 'L'] := by
+  refine ⟨?_, by decide +kernel⟩
+  have e : lexMode .document (renderTokens xmlPiDoc) = (placeTokens 0 xmlPiDoc, none) :=
+    lexDocument_render xmlPiDoc (by decide)
+  show (parseString .document Env.fresh (renderTokens xmlPiDoc)).err? = _
+  unfold parseString
+  rw [e, build_eq_buildE]
+  decide +kernel
+
+example : (parseString .document Env.fresh
+      ['<', 'a', ' ', 'x', 'm', 'l', 'n', 's', ':', 'p', '=', '"', '"', '/', '>']).err? =
+      some (.invalidNamespaceDeclaration ['x', 'm', 'l', 'n', 's', ':', 'p'] ⟨3, 10⟩) ∧
+    sliceBytes ['<', 'a', ' ', 'x', 'm', 'l', 'n', 's', ':', 'p', '=', '"', '"', '/', '>'] 3 10 =
+      some ['x', 'm', 'l', 'n', 's', ':', 'p'] := by
+  refine ⟨?_, by decide +kernel⟩
+  have e : lexMode .document (renderTokens undeclDoc) = (placeTokens 0 undeclDoc, none) :=
+    lexDocument_render undeclDoc (by decide)
+  show (parseString .document Env.fresh (renderTokens undeclDoc)).err? = _
+  unfold parseString
+  rw [e, build_eq_buildE]
+  decide +kernel
+
 /-- Non-vacuity, on `<p:a xmlns:p="u" b="x&#10;y">t&lt;<![CDATA[c]]><!--k--><?pi d?></p:a>`: the text is
     accepted; the tree has the element at `[0]` with its attribute `b` (value `x`, LF, `y`), the
     merged text `t<c` at `[0, 2]`, the comment at `[0, 3]` and the PI at `[0, 4]`. -/
-def sliceWitness : List Token :=
-  [.elementStart ⟨['p'], 0⟩ ⟨['a'], 0⟩ ⟨[], 0⟩,
-   .attribute ⟨['x', 'm', 'l', 'n', 's'], 0⟩ ⟨['p'], 0⟩ ⟨['u'], 0⟩ ⟨[], 0⟩,
-   .attribute ⟨[], 0⟩ ⟨['b'], 0⟩ ⟨['x', '&', '#', '1', '0', ';', 'y'], 0⟩ ⟨[], 0⟩,
-   .elementEnd .open ⟨[], 0⟩, .text ⟨['t', '&', 'l', 't', ';'], 0⟩, .cdata ⟨['c'], 0⟩ ⟨[], 0⟩,
-   .comment ⟨['k'], 0⟩ ⟨[], 0⟩, .pi ⟨['p', 'i'], 0⟩ (some ⟨['d'], 0⟩) ⟨[], 0⟩,
-   .elementEnd (.close ⟨['p'], 0⟩ ⟨['a'], 0⟩) ⟨[], 0⟩]
-
 example : LexOK false sliceWitness = true := by decide
-
-/-- What is looked at in the parse result (a `Bool`, so that the kernel can evaluate it). -/
-def sliceWitnessCheck (r : BuildResult) : Bool :=
-  match r with
-  | .ok p =>
-    (match p.tree.at? [0] with
-     | some (.node (.element _) ks) =>
-       ks.any (fun k => match k.value with | .attribute _ v => v == ['x', '\n', 'y'] | _ => false)
-     | _ => false) &&
-    (match p.tree.at? [0, 2] with | some (.node (.text v) _) => v == ['t', '<', 'c'] | _ => false) &&
-    (match p.tree.at? [0, 3] with | some (.node (.comment v) _) => v == ['k'] | _ => false) &&
-    (match p.tree.at? [0, 4] with | some (.node (.pi _ d) _) => d == some ['d'] | _ => false) &&
-    p.spans.get ⟨[0], .elementStart⟩ == some ⟨1, 4⟩ && p.spans.get ⟨[0, 2], .text⟩ == some ⟨29, 44⟩
-  | _ => false
 
 example : sliceWitnessCheck (parseString .document Env.fresh (renderTokens sliceWitness)) = true := by
   have e : lexMode .document (renderTokens sliceWitness) = (placeTokens 0 sliceWitness, none) :=
@@ -414,5 +546,28 @@ example : sliceWitnessCheck (parseString .document Env.fresh (renderTokens slice
 /-- … and the slice of the text node's span `29..44` is `t&lt;<![CDATA[c`, the `runSlice` of its run. -/
 example : sliceBytes (renderTokens sliceWitness) 29 44 =
     some (runSlice [.text ⟨['t', '&', 'l', 't', ';'], 29⟩, .cdata ⟨['c'], 43⟩ ⟨[], 34⟩]) := by decide +kernel
+
+/-- Line ends: on `<a><!--x\r\ny--><?p u\rv?></a>` (CR LF inside the comment, a lone CR inside the PI
+    data) the comment at `[0, 0]` has the value `x\ny` while its span `7..11` covers the 4 written
+    characters `x\r\ny`; the PI at `[0, 1]` has the data `u\nv` while `PiContent` = `18..21` slices to `u\rv`. -/
+example : LexOK false crWitness = true := by decide
+example : renderTokens crWitness =
+    ['<', 'a', '>', '<', '!', '-', '-', 'x', '\r', '\n', 'y', '-', '-', '>', '<', '?', 'p', ' ', 'u', '\r', 'v',
+     '?', '>', '<', '/', 'a', '>'] := by decide
+
+example : crWitnessCheck (parseString .document Env.fresh (renderTokens crWitness)) = true := by
+  have e : lexMode .document (renderTokens crWitness) = (placeTokens 0 crWitness, none) :=
+    lexDocument_render crWitness (by decide)
+  unfold parseString
+  rw [e, build_eq_buildE]
+  decide +kernel
+
+example : sliceBytes (renderTokens crWitness) 7 11 = some ['x', '\r', '\n', 'y'] ∧
+    normalizeLineEnds ['x', '\r', '\n', 'y'] = ['x', '\n', 'y'] ∧
+    sliceBytes (renderTokens crWitness) 18 21 = some ['u', '\r', 'v'] ∧
+    normalizeLineEnds ['u', '\r', 'v'] = ['u', '\n', 'v'] := by decide +kernel
+
+/-- … and the hypothesis of the `_noCr` forms: the slices of `sliceWitness` (`k`, `d`) have no CR. -/
+example : '\r' ∉ (['k'] : Str) ∧ '\r' ∉ renderTokens sliceWitness := by decide +kernel
 
 end XotModel.Props
